@@ -497,7 +497,7 @@ func (e *ev) nonNilError(v ssa.Value, at ssa.Instruction, depth int) bool {
 		return true
 	}
 	// guarded by a dominating nil test of v
-	if at != nil && nonNilGuarded(at, v) {
+	if at != nil && nonNilGuarded(e.p, at, v) {
 		return true
 	}
 	// Field extraction from a struct whose field was nil-tested: `box.err` guarded by `nil != box.err`
